@@ -297,6 +297,14 @@ func famOdd() []archive {
 	out = append(out, archive{Family: "odd", Kids: []node{{Kind: "fakezip", Name: "x.zip", Size: 0}, {Kind: "fakezip", Name: "p/y.zip", Size: 1}}})
 	out = append(out, archive{Family: "odd", Kids: []node{{Kind: "corrupt", Name: "x.zip"}, {Kind: "file", Name: "h", Size: 1}}})
 	out = append(out, archive{Family: "odd", Kids: []node{{Kind: "file", Name: "h", Size: 1}, {Kind: "zip", Name: "n1.zip", Kids: []node{{Kind: "corrupt", Name: "x.zip"}}}}})
+	// nested archives that fail after some of their members were written (sound central directory, last member damaged):
+	// one, several side by side (what they leave behind adds up), one level further down
+	half := func(name string) node {
+		return node{Kind: "halfzip", Name: name, Kids: []node{{Kind: "file", Name: "f", Size: 3}, {Kind: "file", Name: "g", Size: big}, {Kind: "file", Name: "bad", Size: 2}}}
+	}
+	out = append(out, archive{Family: "odd", Kids: []node{{Kind: "file", Name: "h", Size: 1}, half("n1.zip")}})
+	out = append(out, archive{Family: "odd", Kids: []node{half("n1.zip"), half("n2.zip"), half("n3.jar"), {Kind: "file", Name: "h", Size: 1}}})
+	out = append(out, archive{Family: "odd", Kids: []node{{Kind: "zip", Name: "o.zip", Kids: []node{half("n1.zip"), {Kind: "file", Name: "h", Size: 1}}}}})
 	// nested archive and a sibling directory with the name the nested archive is extracted to
 	out = append(out, archive{Family: "odd", Kids: []node{{Kind: "file", Name: "n1/f", Size: 2}, {Kind: "zip", Name: "n1.zip", Kids: []node{{Kind: "file", Name: "g", Size: 3}}}}})
 	return out
